@@ -9,7 +9,7 @@ ENTRIES = ["Transformer._low_x_correction", "Transformer.fourier_transform", "Tr
 RULE = ("random Q grid starting at Qmin>0 (or exactly 0 in 15%), S(Q) data, r grid (with r=0 in 40%), Lorch on/off, density; the "
         "added term (with minus without OmittedXrangeCorrection) is compared with (2/pi) int_0^Qmin Q[S_lin(Q)-1] w(Q) sin(Qr) dQ "
         "by 400-point Gauss-Legendre quadrature, for all four input and three output functions; non-trivial = Qmin>0 and >= 3 Q points")
-DIST = ["lorch", "qmin0", "out", "inp", "uniform", "smin_is_1", "pole"]
+DIST = ["lorch", "qmin0", "out", "inp", "uniform", "smin_is_1", "pole", "foreign"]
 SHRINK = None
 _GL = np.polynomial.legendre.leggauss(400)
 
@@ -35,7 +35,7 @@ def gen(rng, i, tier):
     if not qmin0 and not uniform and len(q) > 6 and rng.random() < 0.3:
         k = int(rng.integers(1, len(q) // 2))
         win = float(q[k] - rng.uniform(0.1, 0.9) * (q[k] - q[k - 1]))  # strictly between two grid points
-    return dict(q=tolist(q), s=tolist(s), r=tolist(r), lorch=bool(rng.random() < 0.5), qmin0=qmin0, kw=material(rng), uniform=uniform, xmin=win, smin_is_1=bool(s[0] == 1.0), pole=pole,
+    return dict(foreign=bool(rng.random() < 0.15), q=tolist(q), s=tolist(s), r=tolist(r), lorch=bool(rng.random() < 0.5), qmin0=qmin0, kw=material(rng), uniform=uniform, xmin=win, smin_is_1=bool(s[0] == 1.0), pole=pole,
                 nr=int(rng.integers(2, 30)), delr=float(rng.uniform(0.02, 0.4)),
                 out=str(rng.choice(["G", "g", "GK"])), inp=str(rng.choice(["S", "F", "FK", "DCS"])), s2scale=float(rng.uniform(0.5, 2)))
 
@@ -72,6 +72,18 @@ def evaluate(case):
         q_eff, s_eff = q, s
     y = s if inp == "S" else getattr(cv, f"S_to_{inp}")(q, s, **kw)[0]
     fn = getattr(tr, f"{inp}_to_{out}")
+    lorch_eff = bool(case["lorch"])
+    if case.get("foreign"):
+        # a StoG / CLI configuration dictionary handed to the Transformer: keys spelled for another class ("LorchFlag", "Rmax", ...).
+        # Whether the Lorch window is on is read off the uncorrected transform itself; the added term must be damped accordingly
+        base_kw = dict(kw)
+        kw.update({"LorchFlag": True, "Rmax": 30.0, "NumberDensity": kw["rho"], "RealSpaceFunction": "g(r)"})
+        with np.errstate(all="ignore"):
+            ref_p = np.asarray(fn(q, y, r, **{k: v for k, v in base_kw.items() if k != "lorch"})[1], dtype=float)
+            ref_l = np.asarray(fn(q, y, r, **dict(base_kw, lorch=True))[1], dtype=float)
+            got_o = np.asarray(fn(q, y, r, **kw)[1], dtype=float)
+        if not np.array_equal(ref_p, ref_l, equal_nan=True):
+            lorch_eff = bool(np.abs(got_o - ref_l).max(initial=0.0) < np.abs(got_o - ref_p).max(initial=0.0))
     with np.errstate(all="ignore"):
         _, w_on, _ = fn(q, y, r, OmittedXrangeCorrection=True, **kw)
         _, w_off, _ = fn(q, y, r, **kw)
@@ -85,7 +97,7 @@ def evaluate(case):
         if exceeds(np.abs(added).max(), 1e-12 * max(1.0, float(np.abs(Goff).max()))):
             fails.append("added term is not zero although Qmin = 0")
         return fails
-    exp = model_term(qmin, smin, qmax, r, case["lorch"])
+    exp = model_term(qmin, smin, qmax, r, lorch_eff)
     sc = max(float(np.abs(exp).max()), float(np.abs(Goff).max()) * 1e-3, 1e-300)
     if not np.isfinite(added[pos]).all():
         k = int(np.argmax(~np.isfinite(added) & pos))
